@@ -281,17 +281,10 @@ fn reduced_alphabet() -> Vec<(&'static str, &'static str)> {
         ("usr1", "backup:usr1/db1"),
         ("usr1", "clear:usr1/db1"),
         ("usr1", "copy:usr1/db1->db9"),
-        ("usr2", "audit:usr1/db1"),
-        ("usr2", "db-user-list:usr1/db1"),
         ("usr2", "db-user-add-write:usr1/db1:usr2"),
         ("usr2", "exec_mut:usr2/db2"),
         ("usr2", "delete:usr2/db2"),
         ("admin", "delete:usr1/db1"),
-        ("admin", "admin-db-add:usr1/db9"),
-        ("loggedout", "logout"),
-        ("expired", "logout"),
-        ("garbage", "admin-db-delete:usr1/db1"),
-        ("none", "admin-user-list"),
     ]
 }
 
